@@ -64,8 +64,9 @@ def run(ctx):
     # ... and with C15: the flag / conditional-shutdown actions run inside the handler too; ending the process
     # there must go through _exit (no exit hooks, no locks, no waiting)
     import c15
-    if ctx.harness(['p_c15']) and ctx.translate(c15.COMPONENTS):
-        ctx.prove_dep('props/C15.v', 'the conditional-shutdown / flag actions are built-in actions of a delivery')
+    if ctx.harness(['p_c15']):
+        if ctx.translate(c15.COMPONENTS):
+            ctx.prove_dep('props/C15.v', 'the conditional-shutdown / flag actions are built-in actions of a delivery')
         c15.shutdown_probe(ctx)
     ctx.coverage['rule'] = ('lock-step scenarios as C01 (a delivery arriving at every boundary of register/unregister/unregister_signal and of other deliveries); '
                             'monitors: operation kinds of delivery activities, no failed/blocked step, step count <= 10 + #actions, '
